@@ -22,11 +22,11 @@ SPEC = dict(
     property="C02",
     component="collector",
     props_module="Refinery.Props.C02",
-    quick=dict(cases=240, len=60, shards=4),
+    quick=dict(cases=400, len=60, shards=4),
     thorough=dict(cases=12800, len=160, shards=16),
     nontrivial=nontrivial,
     rule="cases = random interleavings of span arrivals (on time / late / racing sendTraces), ticks at a chosen trace's "
-         "deadline, whole-worker ticks, memory ejections, single sendTraces iterations, reloads (sampler generation, DryRun) on "
+         "deadline, whole-worker ticks, memory ejections, single sendTraces iterations, reloads (sampler generation, DryRun), kept-capacity resizes and stress-relief episodes (spans through ProcessSpanImmediately) on "
          "a real InMemCollector with 1-4 workers, kept-record capacity 1-3 (or 50), MaxExpiredTraces 0-2; non-trivial = at "
          "least one decision took a trace, at least one late span met the decision record and one sendTraces iteration "
          "forwarded spans; distinct by transcript hash",
@@ -43,12 +43,12 @@ SPEC = dict(
              "channel, fake clock, recording transmission) and comparing every step with the model, plus monitors on what reached "
              "the transmission.",
         note="Trusted: Lean kernel; the differential check (sampled); each worker step atomic; time at which a trace is decided is "
-             "an input (C03/C07 cover it); stress-relief path (ProcessSpanImmediately) not part of this model.",
+             "an input (C03/C07 cover it); stress level computation (C15) is an input.",
         technique="Lean 4 proof (conservation invariant by induction over histories) + model/implementation correspondence check",
     ),
     assumptions=["each worker step (processSpan, sendExpiredTracesInCache, sendTracesEarly, reload branch) and each sendTraces "
                  "iteration runs to completion without interleaving inside it",
                  "which traces a tick/ejection takes is an input of the model (deadline arithmetic is C03/C07)",
                  "liveness ('eventually decided') is reduced to: a decision cannot be refused (decide_clears) + tick fairness",
-                 "stress relief is off (ProcessSpanImmediately is outside this model)"],
+                 "whether the node is stressed is an input (op `stress`); the router's stressed branch is replicated by the harness"],
 )
